@@ -122,6 +122,8 @@ def module_devs(tkey, seed=0, spikes="all", opt8="all"):
             devs.append({"k": "vis", "n": f, "v": v})
     ctl_names = [c.attr for c in t.controllers]
     for i, n in enumerate(ctl_names):
+        if spikes != "all" and i not in (0, len(ctl_names) - 1, (seed * 13 + 1) % max(1, len(ctl_names))):
+            continue      # reduced menu (used for pairs / for files as initial states): bindings on 3 controllers
         pick = CMID_VALUES if i in (0, len(ctl_names) - 1) else [CMID_VALUES[(seed + i) % len(CMID_VALUES)], CMID_VALUES[2]]
         for v in pick:
             devs.append({"k": "cmid", "n": n, "v": v})
@@ -257,7 +259,16 @@ def build(tkey, devs):
     return mod
 
 
-def pairs(devs):
+COMMON_KINDS = {"attr", "flag", "vis"}
+
+
+def pairs(devs, common_pairs=True):
+    """All compatible pairs.  Pairs in which BOTH deviations are type-independent common fields (placement,
+    colour, MIDI in/out, flags, visualisation) go through code shared by all 42 types; with
+    common_pairs=False they are skipped (callers enumerate them once, for one representative type)."""
     for a, b in itertools.combinations(range(len(devs)), 2):
+        if not common_pairs and devs[a]["k"] in COMMON_KINDS and devs[b]["k"] in COMMON_KINDS \
+                and devs[a].get("n") != "data" and devs[b].get("n") != "data":
+            continue
         if compatible(devs[a], devs[b]):
             yield devs[a], devs[b]
